@@ -20,6 +20,7 @@ type AuthSpec struct {
 	Trailing       []byte
 	Var            int
 	RPID           []byte // when set: the RP ID the authenticator hashes (otherwise the host of Origin)
+	Inert          M      // option members the verification must not depend on (rpId, timeout, extensions)
 }
 
 func (s *AuthSpec) d(n string) bool { return s.Dev[n] }
@@ -54,7 +55,21 @@ func newAuthSpec(r *RNG, origin string, cred *KeyPair, credID, owner, pk []byte)
 	if r.P(1, 3) {
 		s.Client = benignClientOrigin(r, origin)
 	}
+	if r.P(1, 2) {
+		s.Inert = inertOptions(r, origin)
+	}
 	return s
+}
+
+// inertOptions: members of the request / creation options that the relying party hands to the client and that verification does not
+// consult: the RP ID is the host of the CONFIGURED origin whatever options.rpId / options.rp.id say
+func inertOptions(r *RNG, origin string) M {
+	h := hostOf(origin)
+	m := M{"rpId": hx([]byte(pick(r, []string{h, "evil.example", parentOrigin(h)[len("https://"):], "", "login." + h, h + "."}))), "timeoutMs": r.Intn(100000)}
+	if r.Bool() {
+		m["ext"] = true
+	}
+	return m
 }
 
 // benignClientOrigin: an acceptable client origin other than the RP origin itself (subdomain, other scheme, other port)
@@ -113,7 +128,14 @@ func buildAssertion(r *RNG, s *AuthSpec) M {
 		ad.RPIDHash = sha(s.RPID)
 	}
 	if s.d("ad.rpIdHash") {
-		ad.RPIDHash = variant(r, s.Var, [][]byte{sha([]byte(s.Origin)), sha([]byte("evil.example")), r.Bytes(32), sha([]byte(hostOf(s.Origin) + ".")), make([]byte, 32)})
+		alts := [][]byte{sha([]byte(s.Origin)), sha([]byte("evil.example")), r.Bytes(32), sha([]byte(hostOf(s.Origin) + ".")), make([]byte, 32)}
+		if s.Inert == nil {
+			s.Inert = inertOptions(r, s.Origin)
+		}
+		if id := unhx(s.Inert["rpId"].(string)); string(id) != hostOf(s.Origin) {
+			alts = append(alts, sha(id), sha(id)) // the hash of what options.rpId says
+		}
+		ad.RPIDHash = variant(r, s.Var, alts)
 	}
 	if s.d("ad.noUP") {
 		ad.Flags &^= 0x01
@@ -194,6 +216,9 @@ func buildAssertion(r *RNG, s *AuthSpec) M {
 		"rawId": hx(rawID), "cdj": hx(cdj), "authData": hx(authData), "sig": hx(sig), "userHandle": hx(uh), "store": s.Store}
 	if s.Get != "" {
 		op["get"] = s.Get
+	}
+	if s.Inert != nil {
+		op["inert"] = s.Inert
 	}
 	return op
 }
